@@ -158,9 +158,15 @@ impl Prop for C10 {
     const ID: &'static str = "C10";
 
     fn lanes(tier: Tier) -> Vec<Lane> {
-        vec![Lane::new("main", tier.pick(1_000_000, 12_000_000))
-            .cap(tier.pick(120, 1200))
-            .floor(tier.pick(20_000, 200_000))]
+        vec![
+            Lane::new("main", tier.pick(1_000_000, 12_000_000))
+                    .cap(tier.pick(120, 1200))
+                    .floor(tier.pick(20_000, 200_000)),
+            // every length 10 / 50 / 250 times bigger (strings of up to 10 000 symbols)
+            Lane::new("large", tier.pick(20_000, 300_000))
+                .cap(tier.pick(150, 1200))
+                .floor(tier.pick(1_500, 20_000)),
+        ]
     }
 
     fn rule() -> &'static str {
